@@ -290,6 +290,11 @@ def numeric_key_obligations():
     from contracts import vform_rewrite as R
     m = R.vform_module()
     obs = []
+    def form(c):
+        vf = m.VForm(2)
+        u, v = vf.basisfuns()
+        vf.add(m.as_expr(c) * u * v * m.dx)
+        return vf
     for (a, b) in _COLLIDING:
         if hash(a) != hash(b) or a == b:
             continue        # (not a collision on this interpreter)
@@ -311,4 +316,25 @@ def numeric_key_obligations():
         obs[-1].backend = 'executed on the real class'
     if not obs:
         raise KeyError('no numeric hash collision available on this interpreter')
+    # different constants, however close, are different constants: neighbouring doubles, constants that agree to 12 decimals, very small ones
+    import math
+    near = [(1.0, math.nextafter(1.0, 2.0)), (0.3, 0.1 + 0.2), (1e-13, 4e-13), (8.85e-12, 9.0e-12), (6.626e-34, 0.0), (2.5, math.nextafter(2.5, 0.0)), (1e300, math.nextafter(1e300, 0.0))]
+    for (a, b) in near:
+        ha, hb = form(a).hash(), form(b).hash()
+        obs.append(_mk('vform:VForm:distinct-constants[%r|%r]' % (a, b), ha != hb, 'forms differing only in the constants %r / %r get different VForm hashes' % (a, b),
+                       'equal hash %r: the compile cache would hand out the assembler of the first form for the second (ConstExpr keys %r / %r)' % (
+                           ha, m.ConstExpr(a).hash_key(), m.ConstExpr(b).hash_key()), src='def hash_key'))
+        obs[-1].backend = 'executed on the real class'
+    # hash() is total on well-formed forms: a named variable that nothing refers to must not make it fail (compile_vform starts with hash())
+    try:
+        vf = m.VForm(2)
+        u, v = vf.basisfuns()
+        vf.let('unused', vf.Geo[0] * 2)
+        vf.add(u * v * m.dx)
+        h1 = vf.hash()
+        ok, detail = isinstance(h1, int), 'hash() returned %r' % (h1,)
+    except Exception as e:
+        ok, detail = False, 'VForm.hash() raised %s: %s for a form with an unreferenced let-variable: compile_vform() cannot serve it' % (type(e).__name__, e)
+    obs.append(_mk('vform:VForm.hash:total[unreferenced let-variable]', ok, 'VForm.hash() returns for a form with an unreferenced named variable', detail, src='def hash(self)'))
+    obs[-1].backend = 'executed on the real class'
     return obs, None
